@@ -4,6 +4,8 @@ import (
 	"fmt"
 	"time"
 
+	"verif/sim/kit"
+
 	cstypes "github.com/kardiachain/go-kardia/consensus/types"
 )
 
@@ -38,6 +40,7 @@ type director struct {
 	plans    map[uint32]*roundPlan
 	hold     map[uint32]map[int]bool // round -> validator indices whose prevotes towards the victim are withheld
 	released bool
+	eager    bool // release as soon as the victim is locked and past its lock round
 	deadline time.Duration
 }
 
@@ -97,7 +100,7 @@ func (s *Sim) directorStep() {
 			// release the withheld prevotes once the victim has locked a block in a round
 			// after a withheld one and has moved on to a later round (tape-chosen moment)
 			locked := vrs.LockedBlock != nil && vrs.Round > vrs.LockedRound
-			if (locked && s.tape.Chance(1, 3)) || vrs.Round > d.rounds {
+			if (locked && (d.eager || s.tape.Chance(1, 3))) || vrs.Round > d.rounds {
 				d.released = true
 				if locked {
 					s.res.Probe("director-released-old-prevotes-to-a-locked-node")
@@ -118,6 +121,17 @@ func (s *Sim) directorStep() {
 	d.victim = live[s.tape.Draw(len(live))].ID
 	d.rounds = uint32(2 + s.tape.Draw(4))
 	desc := ""
+	if s.tape.Chance(1, 3) {
+		if pd := s.minorityLockPlan(d, live); pd != "" {
+			d.deadline = s.now() + time.Duration(int(d.rounds+2)*6*s.cfg.TimeoutMs)*time.Millisecond
+			s.dir = d
+			s.res.Fault("director-height")
+			s.res.Fault("director-minority-lock-plan")
+			s.ah.Add("director", "minority-lock")
+			s.trace("DIRECTOR h%d victim node %d:%s", d.height, d.victim, pd)
+			return
+		}
+	}
 	for r := uint32(1); r <= d.rounds; r++ {
 		p := &roundPlan{kind: []string{"open", "nobody", "subset"}[s.tape.Weighted(2, 2, 4)]}
 		if p.kind == "subset" {
@@ -154,4 +168,95 @@ func (s *Sim) directorHold(m *Msg) {
 	if m.Key != "" {
 		s.until[m.Key] = s.now() + 40*time.Millisecond
 	}
+}
+
+// minorityLockPlan is one structured family of plans (the tape picks the members): a first
+// round in which nobody gets the proposal, so that every correct node prevotes nil, while the
+// victim is shown too few of those prevotes to see the nil polka; a second round whose proposal
+// reaches the victim and one partner only, who together hold no more than 2/3 of the power but
+// more than 2/3 with the Byzantine validators that help polkas form (lock-bait): the two lock
+// and precommit the block, nobody else does, the height goes on; then the withheld first-round
+// prevotes are released to the locked victim. Needs a lock-bait validator. Returns "" when no
+// pair of correct nodes has the right power.
+func (s *Sim) minorityLockPlan(d *director, live []*kit.Node) string {
+	var total, bait int64
+	for _, st := range s.cfg.Stakes {
+		total += st
+	}
+	for _, b := range s.byz {
+		if b.Strat == "lock-bait" && b.ID < len(s.cfg.Stakes) {
+			bait += s.cfg.Stakes[b.ID]
+		}
+	}
+	if bait == 0 || len(live) < 3 {
+		return ""
+	}
+	// who proposes in round 2 of that height? A correct proposer votes for its own block, so it has to
+	// be one of the two; a Byzantine one has to be a lock-bait validator (its proposals are acceptable)
+	var prop2 *kit.Node
+	var most *kit.Node
+	for _, n := range live {
+		if most == nil || s.heightOf(n) > s.heightOf(most) {
+			most = n
+		}
+	}
+	if nv := most.CS.VerifState().NextValidators; nv != nil {
+		pa := nv.CopyIncrementProposerPriority(1).GetProposer().Address
+		found := false
+		for _, n := range live {
+			if n.Addr == pa {
+				prop2, found = n, true
+			}
+		}
+		for _, b := range s.byz {
+			if b.Addr == pa {
+				if b.Strat != "lock-bait" {
+					return ""
+				}
+				found = true
+			}
+		}
+		if !found {
+			return ""
+		}
+	}
+	type pair struct{ v, p *kit.Node }
+	var pairs []pair
+	for _, v := range live {
+		for _, p := range live {
+			if v.ID == p.ID || v.ID >= len(s.cfg.Stakes) || p.ID >= len(s.cfg.Stakes) {
+				continue
+			}
+			if prop2 != nil && prop2.ID != v.ID && prop2.ID != p.ID {
+				continue
+			}
+			sum := s.cfg.Stakes[v.ID] + s.cfg.Stakes[p.ID]
+			if !quorumOK(sum, total) && quorumOK(sum+bait, total) {
+				pairs = append(pairs, pair{v, p})
+			}
+		}
+	}
+	if len(pairs) == 0 {
+		return ""
+	}
+	pr := pairs[s.tape.Draw(len(pairs))]
+	rs := rsOf(pr.v)
+	if rs.Validators == nil {
+		return ""
+	}
+	d.victim = pr.v.ID
+	d.rounds = 4
+	d.eager = true
+	d.plans[1] = &roundPlan{kind: "nobody"}
+	d.plans[2] = &roundPlan{kind: "subset", allowed: map[int]bool{pr.v.ID: true, pr.p.ID: true}}
+	d.plans[3] = &roundPlan{kind: "open"}
+	d.plans[4] = &roundPlan{kind: "open"}
+	hold := map[int]bool{}
+	for i, val := range rs.Validators.Validators {
+		if val.Address != pr.v.Addr && val.Address != pr.p.Addr {
+			hold[i] = true
+		}
+	}
+	d.hold[1] = hold
+	return fmt.Sprintf(" minority-lock: r1 nobody, prevotes of validators %v withheld from the victim; r2 proposal only to nodes %d and %d", keysOf(hold), pr.v.ID, pr.p.ID)
 }
